@@ -67,8 +67,8 @@ static const char *soname_for(int backend) {
 }
 
 // workload steps
-enum { W_CREATE, W_ENCODE, W_DECODE_DATA, W_DECODE_PARITY, W_RECON_DATA, W_RECON_PARITY, W_NEEDED, W_CREATE2, W_DESTROY2, W_N };
-static const std::vector<int> SCRIPT = {W_CREATE, W_ENCODE, W_ENCODE, W_ENCODE, W_DECODE_DATA, W_DECODE_PARITY, W_RECON_DATA, W_RECON_PARITY, W_NEEDED, W_NEEDED, W_CREATE2, W_DESTROY2, W_ENCODE, W_DECODE_DATA};
+enum { W_CREATE, W_ENCODE, W_DECODE_DATA, W_DECODE_PARITY, W_RECON_DATA, W_RECON_PARITY, W_NEEDED, W_CREATE2, W_DESTROY2, W_NATURAL_FAIL, W_N };
+static const std::vector<int> SCRIPT = {W_CREATE, W_ENCODE, W_ENCODE, W_ENCODE, W_DECODE_DATA, W_DECODE_PARITY, W_RECON_DATA, W_RECON_PARITY, W_NEEDED, W_NEEDED, W_CREATE2, W_DESTROY2, W_ENCODE, W_DECODE_DATA, W_NATURAL_FAIL, W_NATURAL_FAIL, W_NATURAL_FAIL, W_DECODE_DATA};
 
 struct Run {
     Result r;
@@ -148,6 +148,25 @@ static void do_step(Run &R, int w, int salt) {
             if (rc < 0 && g_injected == inj0 && demand) r.fail("reconstruct failed without an injected fault rc=" + std::to_string(rc));
             if (rc < 0 && g_injected == inj0 && !demand) ok = true;
             break;
+        }
+        case W_NATURAL_FAIL: {
+            // failures the back end reports on its own (no injection): flat-XOR with hd..m fragments lost, which the
+            // front end lets through; every destination in the lost set is tried, data and parity. The public call
+            // must either rebuild exactly or fail, and nothing may stay allocated (per-case LeakSanitizer check).
+            if (R.desc <= 0 || R.s.rc != 0 || R.s.frags.empty() || g.backend != ref::B_XOR) return;
+            int nl = std::min(g.m, g.hd + (salt % 2));
+            std::vector<int> lost; uint64_t sd = 17 + salt; std::vector<bool> gone(n, false);
+            while ((int)lost.size() < nl) { int x = (int)(splitmix64(sd) % n); if ((int)lost.size() == 0 && salt % 3) x = g.k + (int)(splitmix64(sd) % g.m); if (!gone[x]) { gone[x] = true; lost.push_back(x); } }
+            std::vector<const std::vector<uint8_t> *> frs;
+            for (int i = 0; i < n; i++) if (!gone[i]) frs.push_back(&R.s.frags[i]);
+            for (int d : lost) {
+                FragSet fs; fs.build(frs, {});
+                ReconOut o = reconstruct(R.desc, fs, R.s.fraglen, d);
+                if (o.rc == 0 && o.out != R.s.frags[d]) r.fail("reconstruct beyond tolerance succeeded with wrong bytes");
+                if (o.rc > 0) r.fail("positive rc");
+            }
+            { FragSet fs; fs.build(frs, {}); DecodeOut o = decode(R.desc, fs, R.s.fraglen, 0); if (o.rc == 0 && o.out != R.s.data) r.fail("decode beyond tolerance succeeded with wrong bytes"); }
+            return;
         }
         case W_NEEDED: {
             if (R.desc <= 0) return;
@@ -270,7 +289,7 @@ static Case gen_c17() {
     cfg_to(c, g);
     int len = (int)pick(3, 30);
     std::vector<int> script = {W_CREATE};
-    for (int i = 0; i < len; i++) script.push_back(weighted({1, 5, 3, 3, 3, 3, 2, 1, 1}));
+    for (int i = 0; i < len; i++) script.push_back(weighted({1, 5, 3, 3, 3, 3, 2, 1, 1, 3}));
     c.setv("script", script);
     int nf = weighted({0, 5, 3, 2, 1});
     std::vector<int> faults;
